@@ -90,10 +90,24 @@ CHECKS = [
         "note": COMMON_NOTE,
         "technique": 'effect analysis over the typed call graph; reaching definitions on the CFG + freshness lattice; who-may-write inventory with positive controls',
     },
+    {
+        "property_id": "C15",
+        "text": 'Plumbing and independence clauses only: single-term guard of the response (CFG regions, cannot be bypassed), set_type before set_data and full coding for the response, y[level] plumbing parser -> resolver -> Variable.reference -> the guarded branch, non-interference (no predictor-side function reads .response; is_response read only by the y[level] branch and two misuse guards), response is None without one, prop columns/guards. NOT decided: the point-wise meaning of the response columns (runtime fact).',
+        "design_ref": 'DESIGN.md section 3, C15 (R15.1-R15.6)',
+        "note": COMMON_NOTE,
+        "technique": 'CFG region/dominance checks; who-reads/who-writes inventory; path summaries of the extracted grammar for the subset notation',
+    },
+    {
+        "property_id": "C16",
+        "text": 'Synonymy, recomputation at prediction and guards: aliases bind one object in the statically extracted registry; T/S build the same CategoricalBox construction as C with Treatment/Sum, every option reaches the box and is read back; I is the identity; offset/prop prediction-time code uses the NEW frame (row count, column by name, re-evaluated call); misuse guards dominate effects; structural definition of binary / prop columns. binary() re-deriving its default and refusal from the new frame is a known finding. Not decided: point-wise values beyond these facts.',
+        "design_ref": 'DESIGN.md section 3, C16 (R16.1-R16.6); section 4 F8',
+        "note": COMMON_NOTE,
+        "technique": 'registry extraction; structural equality of constructions; CFG dominance of guards; taint/aggregate analysis restricted to helper functions',
+    },
 ]
 PENDING = "claimed in DESIGN.md; its check is not registered in this revision of /verif yet"
 NOT_APPLICABLE = [
     {"property_id": "C03", "reason": "rank and column space of a data-dependent matrix are linear-algebra facts about runtime values; no sound static argument in reach bounds the patsy-style redundancy algorithm for every term family and order"},
     {"property_id": "C13", "reason": "rank, zero-sum and span of contrast matrices for every size/reference are algebraic identities over np.eye/vstack index arithmetic; deciding them needs evaluation or proof, not code shape (index agreement between matrix and labels is decided under C04, option plumbing under C16)"},
     {"property_id": "C14", "reason": "mean zero, unit deviation, partition of unity, orthonormality are numerical identities over all inputs; the only shape-level clause (parameters fitted once and frozen) is decided under C06"},
-] + [{"property_id": p, "reason": PENDING} for p in ["C04", "C05", "C08", "C15", "C16"]]
+] + [{"property_id": p, "reason": PENDING} for p in ["C04", "C05", "C08"]]
